@@ -364,9 +364,10 @@ def spec_features(sp):
             out.add("regex")
             if "class_neg" in fs:
                 out.add("regex_negated_class")
-            for f in ("any", "cat", "class", "alt", "rep"):
-                if f in fs:
-                    out.add("regex_" + f)
+            for f in fs:
+                out.add("regex_" + f)
+            for u in G.unsupported_texts(n["regex"]["ast"]):
+                out.add("regex_unsup:" + u)
         if t == "str" and "alphabet" in n:
             out.add("alphabet")
         if t == "str" and "contains" in n:
